@@ -86,7 +86,7 @@ def internalActs (s : St) : List (Act × Option Ev) :=
     .sdCancel, .sdWaitDone, .onceEnter .main]
   let per : List Act := idx.flatMap fun i =>
     [.mainLaunch i, .gateWake i, .gateErr i, .gateTimeout i, .gateCtx i, .gateTickFire i, .rgSend i,
-     .listenerFire i, .onceEnter (.listener i)]
+     .listenerFire i, .listenerCtx i, .onceEnter (.listener i)]
   let us : List Act := (List.range s.users.length).map fun u => Act.onceEnter (.user u)
   let sg : List Act := (List.range s.sigPending.length).flatMap fun k => [Act.sigDeliver k, Act.sigDrop k]
   (base ++ per ++ us ++ sg).map fun a => (a, none)
@@ -108,10 +108,12 @@ def matchingActs (_s : St) (e : Ev) : List (Act × Option Ev) :=
   acts.map fun a => (a, some e)
 
 /-- thread-local progress that commutes with everything and disables nothing: a runnable
-goroutine running to its end, managers and listeners exiting after cancellation, the detached
+goroutine running to its end, managers exiting after cancellation, the detached
 Shutdown() goroutine returning, the owner leaving the Once -/
 def eagerActs (s : St) : List (Act × Option Ev) :=
-  let per : List Act := (List.range s.n).flatMap fun i => [.rgFinish i, .listenerCtx i, .listenerDone i]
+  -- (`listenerCtx` is not eager: a listener that exits on the cancelled context can no longer take a trigger
+  --  that arrives afterwards, and Go's select may just as well take the trigger)
+  let per : List Act := (List.range s.n).flatMap fun i => [.rgFinish i, .listenerDone i]
   ([Act.mgrExit 0, .mgrExit 1, .mgrExit 2, .sdClose] ++ per).map fun a => (a, none)
 
 def acceptor : Acceptor St (Act × Option Ev) Ev :=
